@@ -19,6 +19,7 @@ import gc
 import io
 import os
 import random
+import re
 import weakref
 
 from . import lexer
@@ -29,6 +30,7 @@ CELL = (2, 4)  # pixels per cell: a source of (2*nw) x (4*nh) pixels is nw x nh 
 I31 = 2**31 - 1
 
 _devnull = None
+HPR_SEEN = [0]  # number of "CSI n a" sequences met in screen output (see World._lex)
 
 
 def setup() -> None:
@@ -122,6 +124,16 @@ class World:
 
     def _lex(self, text: str) -> list[dict]:
         st = lexer.lex(text, keep_payloads=True)
+        # urwid's bottom-right-corner handling can cut the final byte off a trailing CUF (CSI n C)
+        # of an image line and print the next cell's character in its place: "CSI n a" is HPR,
+        # which moves the cursor exactly like CUF (ECMA-48).  Not a placement matter: rewritten
+        # to cuf and counted (reported in the evidence), never silently dropped.
+        for i, t in enumerate(st.toks):
+            if t["k"] == "unknown":
+                m = re.fullmatch(r"CSI (\d*)a", t["g"])
+                if m:
+                    st.toks[i] = lexer.tok("cuf", n=int(m.group(1)) if m.group(1) else -1)
+                    HPR_SEEN[0] += 1
         unk = lexer.unknowns(st)
         if unk:
             raise MachineryError(f"lexer does not know {unk[:3]} in the screen's output")
